@@ -153,6 +153,18 @@ CLAIMED = {
         "(comparison functions are C19); the balancing algorithm itself is not modelled, its results are judged.",
    technique="Coq proof (checker soundness by induction over trees; map refinement) + verified checker evaluated on implementation dumps + differential correspondence",
    design="7 (C10)"),
+ "C11": dict(
+   text="Props/C11.v: the ownership checker run on every dump is sound - if it accepts, every page of the file other than page zero "
+        "is exactly one of a tree node, an overflow-chain link or a free-list member, no collection lists a page twice (acyclic "
+        "free list, no shared or repeated chain page), nobody owns a page outside the file and the recorded head/tail are the "
+        "ends of the free list (C11_checker_sound).  On every run the trees of C10 plus reuse scenarios (build, delete everything, "
+        "rebuild with a dump after every insert) are dumped with their overflow chains and free list; each dump goes through the "
+        "verified checker inside Coq and through independent python checks (exactly one owner per page, one leaf cell per chain, "
+        "pages return to the free list, the file does not grow while untouched free pages exist).  Rows larger than a twentieth "
+        "of the page lose pages or alias chains (recorded finding with witness).",
+   note="Trusted: Coq kernel; dump produced by the facade; SQL-level DROP/VACUUM page reuse is only observed through file sizes (C13).",
+   technique="Coq proof (ownership checker soundness) + verified checker evaluated on implementation dumps + independent python ownership oracle",
+   design="7 (C11)"),
 }
 NOT_YET = "not claimed yet: model and proofs under construction in this session (see DESIGN.md section 10, build order)"
 
